@@ -255,4 +255,10 @@ theorem largest_partial_update_fits_the_receive_buffer (p2 p3 recs : Wire.Bytes)
   simp only [Wire.frame, List.length_append, h1, h2, h3, h4, h5, h6, h7, h8, h9, hr, List.length_cons, List.length_nil]
   omega
 
+/-- the count byte is the byte right after the verb: both decoders drop exactly the verb's length (regenerated `verbSkip*` =
+`received_bytes[5:]`; a decoder that took the verb off by its LETTERS would also eat a count that happens to be one of them) -/
+theorem count_follows_the_verb :
+    Generated.verbSkipAsync = Generated.WireFormats.STATP_VERB.length ∧ Generated.verbSkipSync = Generated.WireFormats.STATP_VERB.length ∧
+    Generated.countIsFirstByteAsync = true ∧ Generated.countIsFirstByteSync = true := by decide
+
 end GeckoModel.C05
